@@ -706,7 +706,9 @@ Lemma Ah : alo <= ahi. Proof. apply sqrt_mono. exact Lh. Qed.
 (* the tolerances in the state, if defined, lie in the band; the store is well formed *)
 Definition eps_ok (e : option (Qc * Qc)) : Prop :=
   match e with Some (e, a) => band lo hi e /\ band alo ahi a | None => True end.
-Definition st_ok (s : gstate) : Prop := eps_ok (g_eps s) /\ mem_wf (g_mem s).
+(* ... and the objects bound to default arguments still have their import-time value *)
+Definition dflt_pristine (s : gstate) : Prop := g_dflt s = dflt_init.
+Definition st_ok (s : gstate) : Prop := eps_ok (g_eps s) /\ mem_wf (g_mem s) /\ dflt_pristine s.
 (* an operation of the history: whatever it would install lies in the band; its posts are in normal form *)
 Definition cand_ok (o : opn) : Prop :=
   match op_cand o with Some c => band lo hi c | None => True end.
@@ -721,18 +723,40 @@ Proof.
 Qed.
 
 Lemma s_init_ok : st_ok s_init.
-Proof. split; [exact Logic.I|]. intros j v h l E. destruct j; discriminate. Qed.
+Proof. split; [exact Logic.I|]. split; [|reflexivity]. intros j v h l E. destruct j; discriminate. Qed.
+
+(* no caller-visible step writes the default objects *)
+Lemma dstep_preserves d st : fst (dstep_run d st) = d.
+Proof. destruct st; reflexivity. Qed.
+Lemma dsteps_preserve l : forall d, fst (dsteps_run d l) = d.
+Proof.
+  induction l as [|st r IH]; intro d; [reflexivity|]. cbn [dsteps_run].
+  pose proof (dstep_preserves d st) as E1. destruct (dstep_run d st) as [d1 o1]. cbn in E1. subst d1.
+  pose proof (IH d) as E2. destruct (dsteps_run d r) as [d2 o2]. cbn in E2. subst d2. reflexivity.
+Qed.
+Lemma step_dflt s o : g_dflt (fst (step s o)) = g_dflt s.
+Proof.
+  destruct o as [t|d|q ops cells|ps|x|l|M h w]; cbn; try reflexivity.
+  - unfold op_sat. destruct (run_posts _ _ _) as [[[? ?] ?]|]; reflexivity.
+  - unfold op_defaults. pose proof (dsteps_preserve l (g_dflt s)) as E.
+    destruct (dsteps_run (g_dflt s) l) as [d o]. exact E.
+Qed.
 
 Lemma step_ok s o : st_ok s -> cand_ok o -> posts_ok o -> st_ok (fst (step s o)).
 Proof.
-  intros [He Hm] C P. unfold cand_ok in C. destruct o as [t|d|q ops cells|ps|x]; cbn in *.
-  - split; [apply first_writer_ok; assumption|exact Hm].
-  - split; [apply first_writer_ok; assumption|exact Hm].
-  - split; [apply first_writer_ok; assumption|exact Hm].
-  - unfold op_sat.
+  intros (He & Hm & Hd) C P.
+  assert (D : dflt_pristine (fst (step s o))) by (unfold dflt_pristine; rewrite step_dflt; exact Hd).
+  unfold cand_ok in C. destruct o as [t|d|q ops cells|ps|x|l|M h w]; cbn in *.
+  - split; [apply first_writer_ok; assumption|split; [exact Hm|exact D]].
+  - split; [apply first_writer_ok; assumption|split; [exact Hm|exact D]].
+  - split; [apply first_writer_ok; assumption|split; [exact Hm|exact D]].
+  - unfold op_sat in *.
     destruct (run_posts_spec ps (g_mem s) empty_mgr (inv_empty _ Hm) P) as (m' & s' & sts & E & I & _).
-    rewrite E. cbn. split; [exact He|exact (inv_wf _ _ I)].
-  - split; [exact He|exact Hm].
+    rewrite E in *. cbn in *. split; [exact He|split; [exact (inv_wf _ _ I)|exact D]].
+  - split; [exact He|split; [exact Hm|exact D]].
+  - unfold op_defaults in *. destruct (dsteps_run (g_dflt s) l) as [d o]. cbn in *.
+    split; [exact He|split; [exact Hm|exact D]].
+  - split; [exact He|split; [exact Hm|exact D]].
 Qed.
 
 Lemma run_ok h : forall s, st_ok s -> Forall cand_ok h -> Forall posts_ok h -> st_ok (run h s).
@@ -753,6 +777,8 @@ Definition probe_robust (p : opn) : Prop :=
   | OAlloc _ q ops cells => robust_alloc lo hi alo ahi q ops cells = true
   | OSat _ ps => True
   | OLegal _ _ => True
+  | ODefaults _ _ => True
+  | OStrop _ _ _ _ => True
   end.
 
 Lemma die_model_noparse e a deps tin d : DM.parse d = None -> DM.die_model e a deps tin d = DM.Reject DM.RParse.
@@ -776,8 +802,8 @@ Qed.
 Theorem probe_independent s1 s2 p : st_ok s1 -> st_ok s2 -> cand_ok p -> posts_ok p -> probe_robust p ->
   obs_equiv leg_output (snd (step s1 p)) (snd (step s2 p)).
 Proof.
-  intros [He1 Hm1] [He2 Hm2] C P R. unfold cand_ok in C.
-  destruct p as [t|d|q ops cells|ps|x]; cbn in *.
+  intros (He1 & Hm1 & Hd1) (He2 & Hm2 & Hd2) C P R. unfold cand_ok in C. unfold dflt_pristine in Hd1, Hd2.
+  destruct p as [t|d|q ops cells|ps|x|l|M h w]; cbn in *.
   - (* netlist *)
     destruct R as [R Hd]. unfold netlist_cand in C.
     destruct (NR.parse_netlist t) as [p|r] eqn:Ep.
@@ -817,6 +843,10 @@ Proof.
       as (m1' & t1 & m2' & t2 & sts & E1 & E2 & _ & _ & X & _).
     rewrite E1, E2. cbn. split; [reflexivity|exact X].
   - reflexivity.
+  - (* default arguments: both states hold the import-time objects *)
+    unfold op_defaults. rewrite Hd1, Hd2. destruct (dsteps_run dflt_init l) as [d o]. reflexivity.
+  - (* Strop *)
+    rewrite Hd1, Hd2. reflexivity.
 Qed.
 
 (* the result of a robust probe after ANY history on designs of comparable scale equals its result as the
@@ -836,7 +866,29 @@ Proof. reflexivity. Qed.
 Theorem first_writer_wins : forall s o e, g_eps s = Some e -> g_eps (fst (step s o)) = Some e.
 Proof.
   intros s o e H. destruct o; cbn; try rewrite H; try reflexivity.
-  unfold op_sat. destruct (run_posts _ _ _) as [[[? ?] ?]|]; exact H.
+  - unfold op_sat. destruct (run_posts _ _ _) as [[[? ?] ?]|]; exact H.
+  - unfold op_defaults. destruct (dsteps_run _ _) as [d o]. exact H.
+Qed.
+(* nothing ever writes the objects bound to default arguments *)
+Theorem defaults_never_written : forall h s, g_dflt (run h s) = g_dflt s.
+Proof.
+  induction h as [|o r IH]; intro s; [reflexivity|]. cbn [State.run fold_left].
+  change (g_dflt (run r (fst (step s o))) = g_dflt s). rewrite IH. apply step_dflt.
+Qed.
+
+(* ---- histories that CONTAIN the probed operation and near-duplicates of it ---- *)
+(* history_independent puts no condition relating the history to the probe: in particular the history may
+   contain the probe itself, any number of times, anywhere *)
+Corollary history_with_probe_independent : forall (h1 h2 : list opn) (n : nat) (p : opn),
+  Forall cand_ok h1 -> Forall posts_ok h1 -> Forall cand_ok h2 -> Forall posts_ok h2 ->
+  cand_ok p -> posts_ok p -> probe_robust p ->
+  obs_equiv leg_output (snd (step (run (h1 ++ repeat p (S n) ++ h2) s_init) p)) (snd (step s_init p)).
+Proof.
+  intros h1 h2 n p C1 P1 C2 P2 C P R. apply history_independent; try assumption.
+  - apply Forall_app. split; [exact C1|]. apply Forall_app. split; [|exact C2].
+    apply Forall_forall. intros x Hx. apply repeat_spec in Hx. subst x. exact C.
+  - apply Forall_app. split; [exact P1|]. apply Forall_app. split; [|exact P2].
+    apply Forall_forall. intros x Hx. apply repeat_spec in Hx. subst x. exact P.
 Qed.
 End History.
 
@@ -906,3 +958,68 @@ Proof.
   split. { eexists. eexists. vm_compute. reflexivity. }
   eexists. split; vm_compute; reflexivity.
 Qed.
+
+(* ---- histories of RELATED designs ---- *)
+(* history_independent quantifies over histories containing the probe's own design and near-duplicates of it.
+   Two dies 6 x 4 with EXACTLY the same cut coordinates (x: 0 2 4 6, y: 0 2 4; 2 rows x 3 columns of cells) and
+   other occupied cells: [ex_die_other] occupies cells (row 0, column 2) and (row 1, column 1), [ex_die_probe]
+   occupies (1, 0) and (1, 1).  The history executes both, twice, the probe's own design included; the hypotheses
+   of the theorem hold, the two designs have different results, and the model's answer for the probe after the
+   history is the decomposition of the probe's own cells (ground = the bottom row and the top-right cell). *)
+Definition ex_reg (x y : Qc) (tag : string) : DM.ytree :=
+  DM.YList [DM.YNum x; DM.YNum y; DM.YNum (qc 2 1); DM.YNum (qc 2 1); DM.YStr tag].
+Definition ex_die (regs : list DM.ytree) : DM.desc :=
+  DM.mkDesc [("width"%string, DM.YNum (qc 6 1)); ("height"%string, DM.YNum (qc 4 1));
+             ("regions"%string, DM.YList regs)] [].
+Definition ex_die_other : opn unit := ODie unit (ex_die [ex_reg (qc 5 1) (qc 1 1) "BRAM"; ex_reg (qc 3 1) (qc 3 1) "#"]).
+Definition ex_die_probe : opn unit := ODie unit (ex_die [ex_reg (qc 1 1) (qc 3 1) "DSP"; ex_reg (qc 3 1) (qc 3 1) "DSP"]).
+Definition ex_rel_hist : list (opn unit) := [ex_die_other; ex_die_probe; ex_die_other; ex_die_probe].
+Definition box4 (r : Rect) : Qc * Qc * Qc * Qc := (cx r, cy r, rw r, rh r).
+Definition box4_eqb (a b : Qc * Qc * Qc * Qc) : bool :=
+  let '(a1, a2, a3, a4) := a in let '(b1, b2, b3, b4) := b in
+  Qceqb a1 b1 && Qceqb a2 b2 && Qceqb a3 b3 && Qceqb a4 b4.
+Fixpoint boxes_eqb (l m : list (Qc * Qc * Qc * Qc)) : bool :=
+  match l, m with
+  | [], [] => true
+  | a :: l', b :: m' => box4_eqb a b && boxes_eqb l' m'
+  | _, _ => false
+  end.
+Definition ex_step := step (fun x => x) unit unit (fun _ => tt) (fun _ => (0, 0, 0)).
+Definition ex_run := run (fun x => x) unit unit (fun _ => tt) (fun _ => (0, 0, 0)).
+
+Example related_history_hypotheses_satisfiable :
+  Forall (cand_ok (fun x => x) unit ex_band_lo ex_band_hi) ex_rel_hist /\
+  Forall (posts_ok unit) ex_rel_hist /\
+  cand_ok (fun x => x) unit ex_band_lo ex_band_hi ex_die_probe /\
+  probe_robust (fun x => x) unit ex_band_lo ex_band_hi ex_die_probe /\
+  In ex_die_probe ex_rel_hist /\
+  snd (ex_step s_init ex_die_other) <> snd (ex_step s_init ex_die_probe) /\
+  exists g sp bl fx,
+    snd (ex_step (ex_run ex_rel_hist s_init) ex_die_probe) = RDie unit (DM.Accept g sp bl fx) /\
+    snd (ex_step s_init ex_die_probe) = RDie unit (DM.Accept g sp bl fx) /\
+    boxes_eqb (map box4 g) [(qc 3 1, qc 1 1, qc 6 1, qc 2 1); (qc 5 1, qc 3 1, qc 2 1, qc 2 1)] = true /\
+    boxes_eqb (map box4 sp) [(qc 1 1, qc 3 1, qc 2 1, qc 2 1); (qc 3 1, qc 3 1, qc 2 1, qc 2 1)] = true.
+Proof.
+  split. { repeat (apply Forall_cons; [unfold cand_ok; vm_compute; split; discriminate|]). apply Forall_nil. }
+  split. { repeat (apply Forall_cons; [exact Logic.I|]). apply Forall_nil. }
+  split. { unfold cand_ok. vm_compute. split; discriminate. }
+  split. { vm_compute. reflexivity. }
+  split. { right. left. reflexivity. }
+  split. { vm_compute. discriminate. }
+  eexists. eexists. eexists. eexists.
+  split; [vm_compute; reflexivity|]. split; [vm_compute; reflexivity|]. split; vm_compute; reflexivity.
+Qed.
+
+(* a history using (and changing) objects built from default arguments and building Strops with and without
+   sizes, then the same calls again: the default objects are the import-time ones *)
+Definition ex_dflt_hist : list (opn unit) :=
+  [ODefaults unit [DUse; DIneq (Some (TAddTerm TZero "a" true 2)) None GE; DExpr; DUse];
+   OStrop unit [[true; true]; [false; true]] (Some [qc 3 2; qc 1 2]) None;
+   OStrop unit [[true; true]; [false; true]] None None].
+Example default_objects_pristine :
+  g_dflt (ex_run ex_dflt_hist s_init) = dflt_init /\
+  snd (ex_step (ex_run ex_dflt_hist s_init) (ODefaults unit [DIneq None None LE; DExpr])) =
+    RDefaults unit [DOIneq (mkI [] 0 GE); DOExpr zero] /\
+  exists i, snd (ex_step (ex_run ex_dflt_hist s_init) (OStrop unit [[true; true]; [false; true]] None None)) =
+    RStrop unit (Some (i, true, [1; 1], [1; 1])).
+Proof. split; [vm_compute; reflexivity|]. split; [vm_compute; reflexivity|]. eexists. vm_compute. reflexivity. Qed.
